@@ -163,6 +163,7 @@ def make_strategy():
 
 def to_case(v):
     toks, lseed, iseed, cseed = v
+    cseed = family.cfg_seed(cseed)
     style = dict(p_cmt=0.04, p_join=0.0, p_nl_slot=0.1, p_brace_nl=0.6, blank=1, multi_cmt=False, indent='random', p_trail=0.05)
     src1, r1 = layout.render(toks, random.Random(lseed), 'C', style, indent_rng=random.Random(iseed))
     src2, r2 = layout.render(toks, random.Random(lseed), 'C', style, indent_rng=random.Random(iseed + 1))
@@ -185,6 +186,7 @@ def make_strategy_lines():
 
 def to_case_lines(v):
     (lang, brace_mode, iseed, cseed), lines = v
+    cseed = family.cfg_seed(cseed)
     src1 = gen_lines.render(lines, random.Random(iseed))
     src2 = gen_lines.render(lines, random.Random(iseed + 1))
     crng = random.Random(cseed)
@@ -206,6 +208,7 @@ def main(ctx):
                 '(the input indentation is random, so it differs from the expected one); distinct by sha256')
     ctx.assumptions = ['expected depth per statement comes from the generator (annotated token list), not from the tool',
                        'defaults read as: class / namespace bodies are not generated; case labels at switch level, their bodies one level in']
+    family.set_tier(ctx)
     core.replay_regress(ctx, replay)
     raw = family.hyp_explore(ctx, judge, make_strategy, to_case, shards=16, examples=(400 if quick else 8000))
     raw += family.hyp_explore(ctx, judge, make_strategy_lines, to_case_lines, shards=16, examples=(400 if quick else 8000))
